@@ -775,8 +775,7 @@ class Table(Vector):
 		# CASE A: Scalar Assignment (Broadcast)
 		# t[0:5, 'A'] = 10
 		if not isinstance(value, Iterable) or isinstance(value, (str, bytes, bytearray)):
-			for col_idx in target_indices:
-				self._underlying[col_idx][row_spec] = value
+			self._assign_columns([(col_idx, value) for col_idx in target_indices], row_spec)
 			return
 
 		# CASE B: Single Row Assignment
@@ -790,8 +789,7 @@ class Table(Vector):
 					f"but value has {len(val_seq)} items."
 				)
 			
-			for i, col_idx in enumerate(target_indices):
-				self._underlying[col_idx][row_spec] = val_seq[i]
+			self._assign_columns([(col_idx, val_seq[i]) for i, col_idx in enumerate(target_indices)], row_spec)
 			return
 
 		# CASE C: Rectangular/Table Assignment
@@ -804,8 +802,7 @@ class Table(Vector):
 				)
 			
 			# We delegate row-length validation to the vector.__setitem__ calls below
-			for i, col_idx in enumerate(target_indices):
-				self._underlying[col_idx][row_spec] = value.cols()[i]
+			self._assign_columns([(col_idx, value.cols()[i]) for i, col_idx in enumerate(target_indices)], row_spec)
 			return
 
 		# CASE D: Raw 2D Iterable Assignment (List of Columns? List of Rows?)
@@ -827,11 +824,23 @@ class Table(Vector):
 				raise SerifValueError(f"Shape mismatch: expected {len(target_indices)} columns/items.")
 			
 			# Assume value[i] corresponds to target_indices[i]
-			for i, col_idx in enumerate(target_indices):
-				self._underlying[col_idx][row_spec] = value[i]
+			self._assign_columns([(col_idx, value[i]) for i, col_idx in enumerate(target_indices)], row_spec)
 			return
 
 		raise SerifTypeError(f"Unsupported assignment value type: {type(value)}")
+
+	def _assign_columns(self, assignments, row_spec):
+		"""
+		Apply [(col_idx, value), ...] to the addressed rows, all or nothing.
+
+		Every column assignment is first tried on a scratch copy, so an index,
+		length or type error in a later column leaves the whole table untouched.
+		"""
+		if len(assignments) > 1:
+			for col_idx, val in assignments:
+				self._underlying[col_idx].copy()[row_spec] = val
+		for col_idx, val in assignments:
+			self._underlying[col_idx][row_spec] = val
 
 	def __iter__(self):
 		"""
